@@ -94,6 +94,15 @@ def gen(rng, tier, prop):
     # sometimes make it an error (trapped by ON ERROR, then RESUME NEXT)
     prog['head_err'] = [ev for ev in evs if rng.random() < 0.15]
     prog['eh'] = _body(rng, evs, rng.randint(1, 3), 'S')
+    has_for = any(st[0] == 'F' for st in prog['main'])
+    if not has_for and rng.random() < 0.3:
+        # trap routines that leave with RETURN <line>: the event must be re-enabled all the same
+        prog['ret_line'] = {ev: rng.randrange(len(prog['main']) + 1) for ev in evs if rng.random() < 0.6}
+    if 'TM' not in evs and rng.random() < 0.15:
+        # the error handler is abandoned with RUN <line> (no RESUME): RUN resets the trap machinery,
+        # the second stage sets its traps up again and they must fire
+        prog['eh_run'] = True
+        prog['stage2'] = [['C', ev, 'ON'] for ev in evs] + _body(rng, evs, rng.randint(2, 6), '')
     if rng.random() < 0.12:
         # an error inside the error handler stops the program
         prog['eh'].insert(rng.randint(0, len(prog['eh'])), ['E'])
@@ -183,6 +192,13 @@ def compile_prog(prog):
     for i, st in enumerate(prog['main']):
         seq.append(('main', i, st))
     seq.append(('main', 'end', ['END']))
+    if prog.get('eh_run'):
+        seq.append(('st2', 'head', ['SETUP', 'ON ERROR GOTO @EH']))
+        for i, ev in enumerate(evs):
+            seq.append(('st2', 's%d' % i, ['SETUP', '%s @H%s' % (EV_ONGOSUB[ev], ev)]))
+        for i, st in enumerate(prog.get('stage2', [])):
+            seq.append(('st2', i, st))
+        seq.append(('st2', 'end', ['END']))
     for si, body in enumerate(prog['subs']):
         seq.append(('sub%d' % si, 'head', ['P']))
         for i, st in enumerate(body):
@@ -192,11 +208,14 @@ def compile_prog(prog):
         seq.append(('h' + ev, 'head', ['E'] if ev in prog.get('head_err', ()) else ['P']))
         for i, st in enumerate(prog['handlers'].get(ev, [])):
             seq.append(('h' + ev, i, st))
-        seq.append(('h' + ev, 'ret', ['RET']))
+        if ev in prog.get('ret_line', {}):
+            seq.append(('h' + ev, 'ret', ['RETL', prog['ret_line'][ev]]))
+        else:
+            seq.append(('h' + ev, 'ret', ['RET']))
     seq.append(('eh', 'head', ['P']))
     for i, st in enumerate(prog['eh']):
         seq.append(('eh', i, st))
-    seq.append(('eh', 'ret', ['RESNEXT']))
+    seq.append(('eh', 'ret', ['RUNTO', None] if prog.get('eh_run') else ['RESNEXT']))
     lines = {}
     ids = {}
     starts = {}
@@ -211,6 +230,12 @@ def compile_prog(prog):
         if st[0] == 'G':
             sec = 'sub%d' % st[1]
             st.append(starts.get(sec))
+        if st[0] == 'RETL':
+            # target: the st[1]-th main statement (or the END behind main)
+            mains = sorted(n2 for n2, sid in ids.items() if sid[0] == 'main')
+            st.append(mains[min(st[1], len(mains) - 1)])
+        if st[0] == 'RUNTO':
+            st.append(starts['st2'])
         if st[0] == 'SETUP':
             t = st[1]
             t = t.replace('@EH', str(starts['eh']))
@@ -247,6 +272,10 @@ def to_basic(lines):
             t = 'RETURN'
         elif k == 'RESNEXT':
             t = 'RESUME NEXT'
+        elif k == 'RETL':
+            t = 'RETURN %d' % st[2]
+        elif k == 'RUNTO':
+            t = 'RUN %d' % st[2]
         out.append('%d %s' % (num, t))
     return out
 
@@ -440,6 +469,28 @@ def model_traces(lines, starts, evs, occ, limit=400, on_deliver=None, timer_leni
                     if m.ev[e] != 'OFF':
                         m.ev[e] = 'ON'
                 m.pc = ret
+            elif k == 'RETL':
+                if not m.stack:
+                    m.running = False    # RETURN without GOSUB
+                    continue
+                kind, ret, e = m.stack.pop()
+                if kind == 'trap':
+                    m.active[e] = 0
+                    if m.ev[e] != 'OFF':
+                        m.ev[e] = 'ON'
+                m.pc = st[2]
+            elif k == 'RUNTO':
+                # RUN <line>: everything is reset (traps OFF and forgotten, stacks, the error-handler state)
+                for e in evs:
+                    m.ev[e] = 'OFF'
+                    m.pending[e] = False
+                    m.active[e] = 0
+                m.in_error = False
+                m.err_resume = None
+                m.stack = []
+                m.forstack = []
+                m.tm_late = False
+                m.pc = st[2]
             elif k == 'RESNEXT':
                 if not m.in_error:
                     m.running = False    # RESUME without error
